@@ -84,7 +84,8 @@ class AsyncView:
         self.missing: Set[str] = set()
         for cls, key in ((NODE, "node"), (CONN, "conn")):
             ci = model.cls(cls)
-            for name in ci.methods:
+            inherited = [n for c in model.mro(ci)[1:] for n in c.methods if n not in ci.methods and not n.startswith("__")]
+            for name in list(ci.methods) + inherited:
                 if _inline_only_helper(model, f"{cls}.{name}", name):
                     continue  # analysed at its call sites (see SymEval.is_new_helper), not as a task entry of its own
                 r = self.ar.eval(f"{cls}.{name}")
